@@ -144,7 +144,35 @@ def gen(rng, tier):
                       "input": inp, "src_lines": src_lines, "tgt_lines": tgt_lines,
                       "indent": rng.choice([None, None, 2, 4]), "p": rng.random() < 0.8, "l": rng.random() < 0.8,
                       "pm": rng.random() < 0.5})
+    # systematically: every combination of the properties and lnk flags for every target format of a
+    # representation, on items that carry a constant and properties (choices drawn from a generator of
+    # their own, so that the cases above do not depend on them)
+    import random
+    lrng = random.Random("c20-flags-" + tier)
+    for rep in ("mrs", "dmrs", "eds"):
+        for tgt in REP_FMTS[rep] + EXPORT[rep]:
+            for p in (True, False):
+                for l in (True, False):
+                    items = [_item_with_constant(lrng, rep) for _ in range(2)]
+                    cases.append({"k": "conv", "rep": rep, "trep": rep, "src": lrng.choice(REP_FMTS[rep]), "tgt": tgt,
+                                  "items": items, "select": None, "input": "path", "src_lines": False,
+                                  "tgt_lines": lrng.random() < 0.3, "indent": lrng.choice([None, 2]),
+                                  "p": p, "l": l, "pm": False})
     return cases
+
+
+def _item_with_constant(rng, rep):
+    for _ in range(40):
+        d = gen_item(rng, rep, False)
+        if rep == "mrs":
+            if any(a[0] == "CARG" for r in d["rels"] for a in r["args"]):
+                return d
+        else:
+            if d["nodes"] and not any(n["carg"] is not None for n in d["nodes"]):
+                d["nodes"][0]["carg"] = "Kim"
+            if d["nodes"]:
+                return d
+    return d
 
 
 def nontrivial(c):
